@@ -4,7 +4,8 @@ import EgVerif.Model.Topic
 
 Mirrored Go functions:
 
-* `Session.getPacketFromMsg`  ↦ the packet id is `nextID`, then `nextID++` on a `uint16` (`% 65536`);
+* `Session.getPacketFromMsg`  ↦ (repaired, fix `C15-packet-id-skip-pending`) ids still in `pending` are skipped
+                                 (`freeId`), the packet id is the resulting `nextID`, then `nextID++` on a `uint16`;
 * `Session.publish`           ↦ `publish`: client offline (`getClient == nil`) ⇒ nothing happens, not even an id is
                                  consumed; QoS0 ⇒ non-blocking send (`select … default`), dropped iff the client's
                                  `writeCh` is full (`full`, supplied by the schedule); QoS1 ⇒ `pending[id] = msg`,
@@ -48,9 +49,32 @@ def Sess.init : Sess := ⟨[], [], 0⟩
 
 def pkt (i : Id) (m : Msg) : Packet := ⟨i, m.qos, m.topic, m.payload⟩
 
-/-- `Session.publish` (with `getPacketFromMsg`). `online` = `broker.getClient(cid) != nil`,
+/-- the loop of the repaired `Session.getPacketFromMsg` (fix `C15-packet-id-skip-pending`):
+`for n := 0; n < 1<<16; n++ { if _, inUse := s.pending[s.nextID]; !inUse { break }; s.nextID++ }` -/
+def skipPending : Nat → List (Id × Msg) → Id → Id
+  | 0, _, i => i
+  | f + 1, p, i => if (alGet i p).isSome then skipPending f p ((i + 1) % idMod) else i
+
+/-- the packet id the next PUBLISH gets: the first id from `nextID` on (cyclically) that is not the key of a
+still-pending message (after 65 536 tries — every id is pending — the current one is taken) -/
+def freeId (p : List (Id × Msg)) (next : Id) : Id := skipPending idMod p next
+
+/-- `Session.publish` (with the repaired `getPacketFromMsg`). `online` = `broker.getClient(cid) != nil`,
 `full` = the client's `writeCh` is full at the instant of the non-blocking send. -/
 def publish (online full : Bool) (m : Msg) (s : Sess) : Sess × List Packet :=
+  if !online then (s, [])
+  else
+    let i := freeId s.pending s.nextID
+    let p := pkt i m
+    let s' : Sess := { s with nextID := (i + 1) % idMod }
+    if m.qos = 0 then (s', if full then [] else [p])
+    else if m.qos = 1 then
+      ({ s' with pending := alSet p.id m s.pending, queue := s.queue ++ [p.id] }, [p])
+    else (s', [])
+
+/-- the UNREPAIRED `Session.publish` (before fix `C15-packet-id-skip-pending`): the id is `nextID`, whether or not
+a message is still pending under it. Kept only for the witness `unrepaired_wrap_loses_unacked_message`. -/
+def publishOld (online full : Bool) (m : Msg) (s : Sess) : Sess × List Packet :=
   if !online then (s, [])
   else
     let p := pkt s.nextID m
@@ -98,6 +122,20 @@ def run (s : Sess) : List Ev → Sess
 def outputs (s : Sess) : List Ev → List Packet
   | [] => []
   | e :: r => (step s e).2 ++ outputs (step s e).1 r
+
+/-- the unrepaired code's step / run / outputs (witness only) -/
+def stepOld (s : Sess) : Ev → Sess × List Packet
+  | .publish online full m => publishOld online full m s
+  | .puback i => (puback i s, [])
+  | .tick online => doResend online s
+
+def runOld (s : Sess) : List Ev → Sess
+  | [] => s
+  | e :: r => runOld (stepOld s e).1 r
+
+def outputsOld (s : Sess) : List Ev → List Packet
+  | [] => []
+  | e :: r => (stepOld s e).2 ++ outputsOld (stepOld s e).1 r
 
 /-! ### client → broker PUBLISH (`processPacketMap["*packets.PublishPacket"]`, `pipelineWrapper`,
 `runPipeline`, `processPublish` in client.go) -/
